@@ -45,7 +45,14 @@ def plan(tier, seed):
     # (about 125 distinct locations on this tree); thorough adds switches at later occurrences (j-th anchor event)
     D = measure_distinct_anchor_locations() + 6
     # quick: every distinct location, each for 6 of the 12 versions (rotating); thorough: for all 12 versions
-    specs += [{'kind': 'cold', 'part': p, 'ds': list(range(1 + p, D + 1, 14)), 'js': [], 'D': D,
+    # the first text assignment of a process (before the parser is imported) passes through many more locations - the bodies
+    # of the modules it makes the library import: every one of them is a hand-over point too, for three versions (quick:
+    # 2.5, one of the versions sharing the v2.7 datatypes, one other - rotating with the seed) or all of them (thorough)
+    vs = tables.versions()
+    fam = [v for v in vs if er7ref.vkey(v) >= (2, 7)]
+    rest = [v for v in vs if v not in fam and v != '2.5']
+    first_only = vs if tier == 'thorough' else ['2.5', fam[seed % len(fam)], rest[seed % len(rest)]]
+    specs += [{'kind': 'cold', 'part': p, 'ds': list(range(1 + p, D + 1, 14)), 'js': [], 'D': D, 'first_only': first_only,
                'versions_per_process': 6 if tier == 'quick' else 12} for p in range(14)]
     if tier == 'thorough':
         specs += [{'kind': 'cold', 'part': 14 + p, 'ds': [], 'js': list(range(1 + p, 3600, 16 * 9))} for p in range(16)]
@@ -146,6 +153,23 @@ def corpus():
                 setattr(m.add_segment(zn), '%s_2' % zn.lower(), 'z%d' % i)
                 return [m.to_er7(), [str(e) for e in m.validate(return_errors=True).errors]]
             calls.append(('build_message/%s/%d' % (v, level), bm))
+            def zf(v=v, level=level, i=i):
+                # the one locally defined segment every site uses (ZIN), each call with field numbers of its own - by
+                # assignment and by parsing; where the version has it, the open-ended end of QPD too
+                n = 2 + 2 * i + (level - 1)
+                s = core.Segment('ZIN', version=v, validation_level=level)
+                setattr(s, 'zin_%d' % n, 'v%d' % n)
+                s.add_field('ZIN_%d' % (n + 30)).value = 'w%d' % n
+                s2 = parser.parse_segment('ZIN|' + '|'.join('f%d.%d' % (n, k) for k in range(1, n + 1)), version=v,
+                                          validation_level=level)
+                out = [s.to_er7(), s2.to_er7(), [c.name for c in s.children.list], [c.name for c in s2.children.list]]
+                if 'QPD' in tables.segments(v):
+                    q = parser.parse_segment('QPD|q^n|tag|' + '|'.join('p%d.%d' % (n, k) for k in range(3, n + 3)),
+                                             version=v, validation_level=level)
+                    setattr(q, 'qpd_%d' % (n + 9), 'x%d' % n)
+                    out += [q.to_er7(), [c.name for c in q.children.list]]
+                return out
+            calls.append(('shared_z_segment_own_fields/%s/%d' % (v, level), zf))
             for dt, val in (('DT', '20200101'), ('DT', 'bad'), ('TM', '1200+0100'), ('NM', '12.5'), ('SI', '7'),
                             ('ST', 'a|b\\H\\'), ('DTM', '202001011200'), ('TN', '5551234'), ('FT', 'x~y'), ('NM', 'zz'),
                             ('ST', 'c\\d$e@f!g')):
@@ -384,14 +408,16 @@ def _plan_json(pl):
 # ---------------------------------------------------------------- cold-start schedules
 def cold_calls(v, level=2):
     """two calls on the same version for a cold process: A is the first user of the version"""
-    from hl7apy import parser
+    from hl7apy import parser, core
     from hl7apy.factories import datatype_factory
 
     def A():
         s = parser.parse_segment('PID|1||123^^^X&1.2&ISO^MR~456||DOE^JOHN|||M', version=v, validation_level=level)
         from .. import treeinv
+        leaf = core.SubComponent(datatype='ST', version=v)
+        leaf.value = 'k|l~m^n&o#p\\q'     # text holding every delimiter: encoded with the version's default set
         return [s.to_er7(), [str(e) for e in s.validate(return_errors=True).errors],
-                [[e.__dict__.get('name'), e.__dict__.get('_datatype')] for e in treeinv.walk(s)]]
+                [[e.__dict__.get('name'), e.__dict__.get('_datatype')] for e in treeinv.walk(s)], leaf.to_er7()]
 
     def B():
         out = []
@@ -400,6 +426,9 @@ def cold_calls(v, level=2):
             out.append([type(o).__name__, o.to_er7()])
         s = parser.parse_segment('PV1|1|I|W^1^2', version=v, validation_level=level)
         out.append(s.to_er7())
+        leaf = core.SubComponent(datatype='ST', version=v)
+        leaf.value = 'a|b~c^d&e#f\\g'
+        out.append(leaf.to_er7())
         return out
     return A, B
 
@@ -428,13 +457,17 @@ def core_only_calls(v):
         s = core.Segment('PID', version=v, validation_level=2)
         s.pid_5 = 'A^B'
         s.pid_3 = '1^^^X&1.2&ISO'
-        return s.to_er7()
+        leaf = core.SubComponent(datatype='ST', version=v)
+        leaf.value = 'r|s~t^u&v#w\\x'     # text holding every delimiter
+        return [s.to_er7(), leaf.to_er7()]
 
     def B0():
         s = core.Segment('PV1', version=v, validation_level=2)
         s.pv1_3 = 'W^1^2'
         s.pv1_2 = 'I'
-        return s.to_er7()
+        leaf = core.SubComponent(datatype='ST', version=v)
+        leaf.value = 'a|b~c^d&e#f\\g'
+        return [s.to_er7(), leaf.to_er7()]
     return A0, B0
 
 
@@ -451,8 +484,8 @@ def cold_main(argv):
         pl0 = {0: {'anchor_first': {spec['d']}}} if spec.get('d') else ({0: {'anchor': {spec['j']}}} if spec.get('j') else {})
         out0, bt0, hung0 = sched.run_pair(A0, B0, pl0)
         first = {'version': spec['versions'][0], 'out': out0, 'hung': hung0, 'trace': [list(t) for t in bt0.trace],
-                 'blocked': bt0.blocked}
-    for v in spec['versions']:
+                 'blocked': bt0.blocked, 'distinct_anchor_locations': len(bt0.first_seen[0])}
+    for v in ([] if spec.get('first_only') else spec['versions']):
         A, B = cold_calls(v)
         loaded = any(m.startswith('hl7apy.v%s' % v.replace('.', '_')) and m.count('.') == 1 for m in sys.modules)
         pl = {}
@@ -469,6 +502,25 @@ def cold_main(argv):
                     'blocked': bt.blocked, 'hung': hung, 'was_loaded': loaded})
     json.dump({'schedules': res, 'first_text_assignments': first}, open(argv[1], 'w'))
     return 0
+
+
+def judge_first(f0, rec, case, traces):
+    if not f0 or f0['hung']:
+        if f0:
+            rec.inconclusive_reason('cold first-assignment schedule hung (version %s)' % f0['version'])
+        return
+    A0, B0 = core_only_calls(f0['version'])
+    want0 = [outcome(A0), outcome(B0)]
+    rec.count('cold_first_text_assignment_pairs')
+    tr = tuple(tuple(t) for t in f0['trace'])
+    traces.add(('first', f0['version'], tr))
+    rec.evaluation(('cold-first', f0['version'], tr), nontrivial=bool(tr))
+    if f0['trace']:
+        rec.count('cold_first_text_assignment_pairs_switched')
+        rec.seen('cold_first_switch_functions', '%s:%s' % (f0['trace'][0][1], f0['trace'][0][2]))
+    if f0['out'] != want0:
+        rec.violation('result-differs-under-threads:cold-start-before-the-parser-is-imported', case,
+                      {'sequential': str(want0)[:250], 'concurrent': str(f0['out'])[:250], 'trace': f0['trace'][:3]})
 
 
 def run_cold(spec, rec):
@@ -500,16 +552,7 @@ def run_cold(spec, rec):
                 continue
             payload = json.load(open(op))
             f0 = payload.get('first_text_assignments')
-            if f0 and not f0['hung']:
-                A0, B0 = core_only_calls(f0['version'])
-                want0 = [outcome(A0), outcome(B0)]
-                rec.count('cold_first_text_assignment_pairs')
-                if f0['trace']:
-                    rec.count('cold_first_text_assignment_pairs_switched')
-                if f0['out'] != want0:
-                    rec.violation('result-differs-under-threads:cold-start-before-the-parser-is-imported',
-                                  {'kind': 'cold', 'version': f0['version'], kind_: j, 'order': order},
-                                  {'sequential': str(want0)[:250], 'concurrent': str(f0['out'])[:250], 'trace': f0['trace'][:3]})
+            judge_first(f0, rec, {'kind': 'cold', 'version': order[0], kind_: j, 'order': order}, traces)
             for r in payload['schedules']:
                 v = r['version']
                 switched = len(r['trace']) > 0
@@ -540,6 +583,36 @@ def run_cold(spec, rec):
                                       {'sequential': str(ref[v][0])[:250], 'concurrent': str(r.get('after_override'))[:250]})
                 for t in r['trace'][:2]:
                     rec.seen('cold_switch_points', '%s:%s' % (t[1], t[2]))
+        # the first text assignment of a process, pre-empted at the first hit of every distinct location it passes
+        for v in spec.get('first_only', []):
+            d = spec.get('first_d') or 1 + spec['part']
+            while True:
+                sp = os.path.join(work, 'spec.json')
+                op = os.path.join(work, 'out.json')
+                json.dump({'versions': [v], 'd': d, 'first_only': True}, open(sp, 'w'))
+                if os.path.exists(op):
+                    os.remove(op)
+                try:
+                    p = subprocess.run([env.PYTHON, '-m', 'hl7mon.props.c19', '--cold', sp, op], env=env.child_env(),
+                                       cwd=env.VERIF, timeout=300, stdout=subprocess.PIPE, stderr=subprocess.PIPE)
+                except subprocess.TimeoutExpired:
+                    rec.inconclusive_reason('cold first-assignment process timed out (d=%d)' % d)
+                    break
+                if p.returncode != 0 or not os.path.exists(op):
+                    rec.inconclusive_reason('cold first-assignment process failed (d=%d): %s' % (d, p.stderr.decode()[-300:]))
+                    break
+                f0 = json.load(open(op)).get('first_text_assignments')
+                if not f0:
+                    rec.inconclusive_reason('the parser was imported before the first text assignment')
+                    break
+                judge_first(f0, rec, {'kind': 'cold-first', 'version': v, 'd': d}, traces)
+                rec.count('cold_first_only_processes')
+                rec.extra['max_distinct_anchor_locations_first_assignment'] = max(
+                    rec.extra.get('max_distinct_anchor_locations_first_assignment', 0), f0.get('distinct_anchor_locations', 0))
+                if d > f0.get('distinct_anchor_locations', 0) or spec.get('first_d'):
+                    break       # past the last location this call passes through
+                d += 14
+            rec.seen('cold_first_only_versions', v)
     finally:
         import shutil
         shutil.rmtree(work, ignore_errors=True)
@@ -564,6 +637,8 @@ def replay(case, rec):
         for lab, o in ((case['a'], out[0]), (case['b'], out[1])):
             if o != ref[lab]:
                 rec.violation('result-differs-under-threads:forced-switch', case, {'label': lab, 'concurrent': str(o)[:200]})
+    elif case['kind'] == 'cold-first':
+        run_cold({'part': 0, 'js': [], 'ds': [], 'first_only': [case['version']], 'first_d': case['d']}, rec)
     elif case['kind'] == 'cold':
         run_cold({'part': 0, 'js': [case['j']] if 'j' in case else [], 'ds': [case['d']] if 'd' in case else []}, rec)
     else:
@@ -582,6 +657,9 @@ def floors(tier, m):
     if c.get('cold_switches_performed', 0) < 100 or c.get('cold_schedules_on_unloaded_library', 0) < 100:
         out.append('cold-start schedules: %s switches, %s on unloaded libraries' % (
             c.get('cold_switches_performed'), c.get('cold_schedules_on_unloaded_library')))
+    if c.get('cold_first_only_processes', 0) < 300 or c.get('cold_first_text_assignment_pairs_switched', 0) < 300:
+        out.append('first text assignment of a process: %s schedules, %s switched' % (
+            c.get('cold_first_only_processes'), c.get('cold_first_text_assignment_pairs_switched')))
     if not m['seen'].get('anchor_lines_hit'):
         out.append('no anchor line reached')
     return out
